@@ -1,10 +1,195 @@
 /- driver ops for property C15 (model side of the correspondence) -/
 import Rsa.Core.Wire
+import Rsa.Core.Unbalanced
 
-open Lean Rsa.Wire
+open Lean Rsa.Wire Rsa.Unb
 
 namespace Rsa.Drv.C15
 
-def handle : Handler := fun _op _j => none
+/-- exact mode only runs the sqrt/log-free methods (guarded in `run`); these instances
+    exist so that one generic handler serves both number types -/
+local instance : Rsa.HasSqrt Rat := ⟨fun _ => 0⟩
+local instance : Rsa.HasLog Rat := ⟨fun _ => 0⟩
+
+section generic
+variable {α : Type} [Add α] [Sub α] [Mul α] [Div α] [Neg α] [Zero α] [One α] [NatCast α]
+  [LT α] [DecidableLT α] [LE α] [DecidableLE α] [Max α] [Min α] [Rsa.HasSqrt α] [Rsa.HasLog α]
+  [Inhabited α]
+
+def rows (rd : Json → R α) (j : Json) : R (Array (Array (Option α))) := do
+  let l ← asList (asList (asOpt rd)) j
+  pure (l.map List.toArray).toArray
+
+def at2 (d : Array (Array (Option α))) (i c : Nat) : Option α :=
+  match d[i]? with
+  | some r => (r[c]?).join
+  | none => none
+
+def matAt (m : Array (Array (Option α))) (k l : Nat) : α :=
+  match at2 m k l with
+  | some v => v
+  | none => 0
+
+/-- kernel of two observation vectors for a method -/
+def kernOf (method : String) (coded : Bool) (P : Nat) (noise : Option (Nat → Nat → α))
+    (lam pw : α) (x y : Nat → Option α) : R (α × α) :=
+  match method with
+  | "euclidean" => pure (euclidK P x y)
+  | "correlation" => pure (corrK coded P x y)
+  | "mahalanobis" =>
+    match noise with
+    | none => pure (euclidK P x y)
+    | some N => pure (mahalK coded P N x y)
+  | "poisson" => pure (poissonK P (poissonPrep lam pw x) (poissonPrep lam pw y))
+  | m => throw s!"unknown method {m}"
+
+def table (n m : Nat) (f : Nat → Nat → R (α × α)) : R (Array (α × α)) := do
+  let mut t : Array (α × α) := Array.mkEmpty (n * m)
+  for i in [0:n] do
+    for j in [0:m] do
+      t := t.push (← f i j)
+  pure t
+
+def run (exact : Bool) (rd : Json → R α) (wr : α → Json) (j : Json) : R Json := do
+  let data ← fld j "data" >>= rows rd
+  let labels ← fld j "labels" >>= asList asNat
+  let foldsJ := fldD j "folds" Json.null
+  let folds ← asOpt (asList asNat) foldsJ
+  let method ← fld j "method" >>= asStr
+  let coded ← asBool (fldD j "coded" (Json.bool false))
+  let number ← asBool (fldD j "number" (Json.bool true))
+  let P ← fld j "P" >>= asNat
+  let lam ← rd (fldD j "lam" (Json.num 1))
+  let pw ← rd (fldD j "pw" (Json.num 0))
+  let noiseJ := fldD j "noise" Json.null
+  let noiseA ← asOpt (rows rd) noiseJ
+  let bal ← asStr (fldD j "bal" (Json.str "none"))
+  let nF ← asNat (fldD j "F" (Json.num 0))
+  if exact && (method == "correlation" || method == "poisson") then
+    throw "exact mode has no sqrt/log"
+  let nObs := data.size
+  if labels.length ≠ nObs then throw "labels length"
+  let uniq := firstAppearance labels
+  let cds := (codes labels).toArray
+  let n := uniq.length
+  let X : Nat → Nat → Option α := at2 data
+  let noise : Option (Nat → Nat → α) := noiseA.map matAt
+  let tbl ← table nObs nObs (fun i k => kernOf method coded P noise lam pw (X i) (X k))
+  let fa : Array Nat := match folds with
+    | some f => f.toArray
+    | none => (List.range nObs).toArray
+  let half : α := if coded then ofInt Rsa.Gen.C15.selfWEqual else 1 / two
+  let cfg : Cfg α := {
+    nObs := nObs, n := n, desc := fun i => cds[i]!, cv := fun i => fa[i]!,
+    crossval := folds.isSome, number := number,
+    kern := fun i k => tbl[i * nObs + k]!, half := half }
+  let buf := calcLoop cfg
+  let outA := ((List.range (Rsa.Gen.C15.nRdm n + n)).map (finalize buf)).toArray
+  let out : Nat → Option α := fun k => (outA[k]?).join
+  let rdm := assemble n out
+  let prs := pairs n
+  let spec := prs.map (fun ab => specDist cfg ab.1 ab.2)
+  let specSelf := (List.range n).map (fun a => specSim cfg a a)
+  let specCross := prs.map (fun ab => specSim cfg ab.1 ab.2)
+  -- balanced estimators on complete data
+  let V : Nat → Nat → α := fun i c => match X i c with | some v => v | none => 0
+  let N : Nat → Nat → α := match noise with | some m => m | none => idN
+  let balv : List α :=
+    if bal == "mean" then
+      let m := condMean nObs cfg.desc V
+      prs.map (fun ab => balMahal P N m ab.1 ab.2)
+    else if bal == "sq" then
+      let m := condMean nObs cfg.desc V
+      prs.map (fun ab => sqDist P m ab.1 ab.2)
+    else if bal == "single" then
+      -- one observation per condition: observation of code a
+      let obsOf : Nat → Nat := fun a => (cds.toList.idxOf a)
+      if method == "correlation" then
+        prs.map (fun ab => balCorr P (V (obsOf ab.1)) (V (obsOf ab.2)))
+      else if method == "poisson" then
+        let D : Nat → Nat → α := fun i c => match poissonPrep lam pw (X i) c with
+          | some dl => dl.1 | none => 0
+        let L : Nat → Nat → α := fun i c => match poissonPrep lam pw (X i) c with
+          | some dl => dl.2 | none => 0
+        prs.map (fun ab => balPoisson P (D (obsOf ab.1)) (L (obsOf ab.1)) (D (obsOf ab.2)) (L (obsOf ab.2)))
+      else
+        let m := condMean nObs cfg.desc V
+        prs.map (fun ab => balMahal P N m ab.1 ab.2)
+    else if bal == "cv" then
+      if method == "poisson" then
+        let D : Nat → Nat → α := fun i c => match poissonPrep lam pw (X i) c with
+          | some dl => dl.1 | none => 0
+        let L : Nat → Nat → α := fun i c => match poissonPrep lam pw (X i) c with
+          | some dl => dl.2 | none => 0
+        let mu := foldMean nObs cfg.desc cfg.cv D
+        let lg := foldMean nObs cfg.desc cfg.cv L
+        prs.map (fun ab => cvPoissonSpec nF P mu lg ab.1 ab.2)
+      else
+        let mu := foldMean nObs cfg.desc cfg.cv V
+        prs.map (fun ab => cvSpec nF P N mu ab.1 ab.2)
+    else []
+  pure (obj [
+    ("uniq", ofList ofNat uniq), ("codes", ofList ofNat cds.toList),
+    ("out", ofList (ofOpt wr) outA.toList),
+    ("rdm", ofList (ofOpt wr) rdm),
+    ("spec", ofList (ofOpt wr) spec),
+    ("specself", ofList (ofOpt wr) specSelf),
+    ("speccross", ofList (ofOpt wr) specCross),
+    ("bal", ofList wr balv)])
+
+def runOne (exact : Bool) (rd : Json → R α) (wr : α → Json) (j : Json) : R Json := do
+  let di ← fld j "data_i" >>= rows rd
+  let dj ← fld j "data_j" >>= rows rd
+  let cvi ← fld j "cv_i" >>= asList asNat
+  let cvj ← fld j "cv_j" >>= asList asNat
+  let method ← fld j "method" >>= asStr
+  let coded ← asBool (fldD j "coded" (Json.bool false))
+  let number ← asBool (fldD j "number" (Json.bool true))
+  let P ← fld j "P" >>= asNat
+  let lam ← rd (fldD j "lam" (Json.num 1))
+  let pw ← rd (fldD j "pw" (Json.num 0))
+  let noiseA ← asOpt (rows rd) (fldD j "noise" Json.null)
+  if exact && (method == "correlation" || method == "poisson") then
+    throw "exact mode has no sqrt/log"
+  let noise : Option (Nat → Nat → α) := noiseA.map matAt
+  let ni := di.size
+  let nj := dj.size
+  let tbl ← table ni nj (fun i k => kernOf method coded P noise lam pw (at2 di i) (at2 dj k))
+  let ca := cvi.toArray
+  let cb := cvj.toArray
+  let r := calcOne ni nj (fun i => ca[i]!) (fun i => cb[i]!) number (fun i k => tbl[i * nj + k]!)
+  pure (Json.arr #[ofOpt wr r.1, wr r.2])
+
+end generic
+
+instance : Inhabited Rat := ⟨0⟩
+
+def dispatchMode (f : {α : Type} → [Add α] → [Sub α] → [Mul α] → [Div α] → [Neg α] → [Zero α] →
+    [One α] → [NatCast α] → [LT α] → [DecidableLT α] → [LE α] → [DecidableLE α] → [Max α] →
+    [Min α] → [Rsa.HasSqrt α] → [Rsa.HasLog α] → [Inhabited α] →
+    Bool → (Json → R α) → (α → Json) → Json → R Json) (j : Json) : R Json := do
+  let mode ← asStr (fldD j "mode" (Json.str "rat"))
+  if mode == "float" then f (α := Float) false asFloat ofFloat j
+  else f (α := Rat) true asRat ofRat j
+
+/-- first-appearance coding alone -/
+def runCodes (j : Json) : R Json := do
+  let labels ← fld j "labels" >>= asList asNat
+  pure (obj [("uniq", ofList ofNat (firstAppearance labels)), ("codes", ofList ofNat (codes labels))])
+
+/-- the generated index leaves on one pair of codes -/
+def runIdx (j : Json) : R Json := do
+  let n ← fld j "n" >>= asNat
+  let a ← fld j "a" >>= asNat
+  let b ← fld j "b" >>= asNat
+  pure (obj [("key", ofNat (pairKey n a b)), ("nrdm", ofNat (Rsa.Gen.C15.nRdm n))])
+
+def handle : Handler := fun op j =>
+  match op with
+  | "c15.calc" => some (dispatchMode (fun ex rd wr j => run ex rd wr j) j)
+  | "c15.one" => some (dispatchMode (fun ex rd wr j => runOne ex rd wr j) j)
+  | "c15.codes" => some (runCodes j)
+  | "c15.idx" => some (runIdx j)
+  | _ => none
 
 end Rsa.Drv.C15
